@@ -84,6 +84,43 @@ def hTwinRun : Handler := fun j => do
            detail := if why != "" then why else childErr, sig := if why == "" then "" else "twinRun:differs",
            props := [("C17", why == "", why, "twinRun:differs")] }
 
-def parallelOps : List (String × Handler) := [("parEpochs", hParEpochs), ("twinRun", hTwinRun)]
+/-- `parInterleave`: nested interleavings of structural mutations on one shared registry; the guarantees of C16 (b) are
+    evaluated on the implementation's genomes: every genome well-formed, one innovation number = one link and one node
+    id = one role across ALL genomes, numbers first seen in this round above the counters of its start -/
+def hParInterleave : Handler := fun j => do
+  let inp ← fld j "in"
+  let out ← fld j "out"
+  let before ← (← fldArr inp "genomes").mapM parseGenome
+  let afterJ ← fldArr out "genomes"
+  let after ← afterJ.mapM parseGenome
+  let reg0 ← parseReg (← fld inp "reg")
+  let ths ← fldArr out "threads"
+  let inputOk := before.all (fun g => decide (WF g))
+  let genes := after.flatMap (·.genes)
+  let nodes := after.flatMap (·.nodes)
+  let oldInns := before.flatMap (fun g => g.genes.map (·.inn))
+  let oldNodes := before.flatMap (fun g => g.nodes.map (·.id))
+  let firstOf (inn : Int) := genes.find? (·.inn == inn)
+  let why : String :=
+    if !inputOk then ""
+    else match after.find? (fun g => !decide (WF g)) with
+      | some g => "genome " ++ toString g.id ++ " not well-formed after interleaved mutations: " ++ wfWhy g
+      | none =>
+        if !(afterJ.all ownBitsOk) then "genome ownership broken"
+        else if genes.any (fun x => match firstOf x.inn with | some y => !(x.sameLink y) | none => false)
+          then "one innovation number carried by two different links"
+        else if nodes.any (fun n => nodes.any (fun m => m.id == n.id && m.kind != n.kind)) then "one node id with two roles"
+        else if genes.any (fun x => !oldInns.contains x.inn && !reg0.records.any (fun r => r.inn == x.inn || r.inn2 == x.inn) && x.inn ≤ reg0.nextInn)
+          then "innovation number issued in this round is not above the counter at its start"
+        else if nodes.any (fun n => !oldNodes.contains n.id && !reg0.records.any (fun r => r.newNode == n.id) && n.id ≤ reg0.nextNode)
+          then "node id issued in this round is not above the counter at its start"
+        else ""
+  let nOk := (ths.filter (fun t => (fldBool t "ok").toOption.getD false)).length
+  let nested := (ths.filter (fun t => (fldInt t "at").toOption.getD (-1) ≥ 0)).length
+  return { corr := true, spec := why == "", nontrivial := inputOk && nOk ≥ 2 && nested ≥ 1,
+           cls := s!"threads={ths.length}:ok={nOk}", detail := why, sig := if why == "" then "" else "parInterleave:" ++ why,
+           props := [("C16", why == "", why, "parInterleave"), ("C03", why == "", why, "parInterleave")] }
+
+def parallelOps : List (String × Handler) := [("parEpochs", hParEpochs), ("twinRun", hTwinRun), ("parInterleave", hParInterleave)]
 
 end GoNeat.Driver
